@@ -1,0 +1,29 @@
+//go:build verif
+
+package protocol
+
+import (
+	"go.nanomsg.org/mangos/v3"
+	"go.nanomsg.org/mangos/v3/internal/core"
+)
+
+// Re-exports of the internal/core accessors for the conformance harness in
+// /verif (internal packages cannot be imported from outside the module).
+
+// VerifDialerState is core.VerifDialerState.
+type VerifDialerState = core.VerifDialerState
+
+// VerifIDsInUse is core.VerifIDsInUse.
+func VerifIDsInUse() []uint32 { return core.VerifIDsInUse() }
+
+// VerifIDInUse is core.VerifIDInUse.
+func VerifIDInUse(id uint32) bool { return core.VerifIDInUse(id) }
+
+// VerifSocketPipes is core.VerifSocketPipes.
+func VerifSocketPipes(s mangos.Socket) []uint32 { return core.VerifSocketPipes(s) }
+
+// VerifDialer is core.VerifDialer.
+func VerifDialer(d mangos.Dialer) (VerifDialerState, bool) { return core.VerifDialer(d) }
+
+// VerifListener is core.VerifListener.
+func VerifListener(l mangos.Listener) (bool, bool, bool) { return core.VerifListener(l) }
